@@ -1251,30 +1251,58 @@ def _closed_function(prog: Program, f: FuncInfo, depth: int = 0) -> bool:
 
 
 def is_pure_cached_function(prog: Program, f: FuncInfo) -> bool:
-    """An `lru_cache` / `cache` on `f` cannot be observed: `f` is closed (see above) and its cached result is never written to by a caller (callers copy it,
-    or only read it)."""
+    """An `lru_cache` / `cache` on `f` cannot be observed: `f` is closed (see above) and the cached object it hands out is only ever read - no caller writes into
+    it, stores it in an attribute or container, or passes it on to code that could (followed through `return f(...)` two levels up)."""
     if not _closed_function(prog, f):
         return False
-    for g, call in prog.callers_of(f):
-        par = getattr(call, "_parent", None)
-        # result used through a copy: fine.  Bound to a name: the name must not be written through.
-        if isinstance(par, ast.Attribute) and par.attr in ("copy", "dot", "shape", "T", "sum", "mean"):
-            continue
-        if isinstance(par, ast.Return):
-            # handed on: the callers of g are checked the same way, one level
-            for g2, c2 in prog.callers_of(g):
-                p2 = getattr(c2, "_parent", None)
-                if isinstance(p2, (ast.Assign, ast.AnnAssign)):
-                    tg = p2.targets[0] if isinstance(p2, ast.Assign) else p2.target
-                    if isinstance(tg, ast.Name) and _written_through(g2, tg.id):
-                        return False
-            continue
-        if isinstance(par, (ast.Assign, ast.AnnAssign)):
-            tg = par.targets[0] if isinstance(par, ast.Assign) else par.target
-            if isinstance(tg, ast.Name):
-                if _written_through(g, tg.id):
+    return _result_only_read(prog, f, 0)
+
+
+READ_ATTRS = ("copy", "dot", "shape", "T", "sum", "mean", "items", "keys", "values", "get", "tolist", "astype", "size", "ndim", "dtype", "min", "max", "todense", "toarray", "tocsc", "tocsr")
+PURE_CONSUMERS = ("len", "list", "tuple", "dict", "sorted", "sum", "min", "max", "enumerate", "zip", "iter", "next", "float", "int", "str", "repr", "isinstance", "print", "any", "all", "set", "frozenset")
+
+
+def _value_only_read(prog: Program, g: FuncInfo, node: ast.AST, depth: int) -> bool:
+    """How the value of expression `node` (inside `g`) is used."""
+    par = getattr(node, "_parent", None)
+    if isinstance(par, ast.Attribute) and par.value is node:
+        if par.attr in READ_ATTRS:
+            return True
+        call = getattr(par, "_parent", None)
+        return False if isinstance(call, ast.Call) and call.func is par else isinstance(par.ctx, ast.Load)
+    if isinstance(par, ast.Subscript) and par.value is node:
+        return isinstance(par.ctx, ast.Load)
+    if isinstance(par, (ast.BinOp, ast.UnaryOp, ast.Compare, ast.BoolOp, ast.IfExp, ast.JoinedStr, ast.FormattedValue, ast.comprehension, ast.For, ast.If, ast.While, ast.Expr, ast.Starred)):
+        return not (isinstance(par, ast.IfExp) and par.test is not node) or _value_only_read(prog, g, par, depth)
+    if isinstance(par, ast.keyword):
+        par = getattr(par, "_parent", None)
+    if isinstance(par, ast.Call):
+        d = dotted(par.func) or ""
+        q = prog.qualify(g.module, d) or d
+        if d in PURE_CONSUMERS or q.startswith(("numpy.", "scipy.", "math.")) and not q.endswith((".put", ".copyto", ".place", ".putmask", ".fill_diagonal")) and not any(k.arg == "out" for k in par.keywords):
+            return True
+        return False
+    if isinstance(par, (ast.Assign, ast.AnnAssign)):
+        tgs = par.targets if isinstance(par, ast.Assign) else [par.target]
+        if not all(isinstance(t, ast.Name) for t in tgs):
+            return False
+        for t in tgs:
+            if _written_through(g, t.id):
+                return False
+            for u in ast.walk(g.node):
+                if isinstance(u, ast.Name) and u.id == t.id and isinstance(u.ctx, ast.Load) and not _value_only_read(prog, g, u, depth):
                     return False
-                continue
+        return True
+    if isinstance(par, ast.Return):
+        return _result_only_read(prog, g, depth + 1)
+    return False
+
+
+def _result_only_read(prog: Program, f: FuncInfo, depth: int) -> bool:
+    if depth > 2:
+        return False
+    for g, call in prog.callers_of(f):
+        if not _value_only_read(prog, g, call, depth):
             return False
     return True
 
